@@ -5,7 +5,7 @@ CFG = dict(
     level_text="C08_limit_truncates: for every limit n, every choice of which rows are emitted first (any `pick` returning a duplicate-free sublist of length min n |A|), every program and EDB, the limited answer is a subset of the unlimited answer A of size min(n,|A|). C08_refuted_intermediate documents the repaired defect (limit applied to every node). Oracle: limits {1,2,3,5,|A|,|A|+1} on every case against the implementation's own unlimited answer.",
     level_note='Trusted: Coq kernel; hand-written Gallina model of clause semantics and of the engine strategy (Model/Datalog.v) — IRBuilder, the optimizer passes and Differential Dataflow are validated by the correspondence, not derived; harness printers.',
     corr_name='eval_engine vs unlimited IQLEngine answer',
-    rule='shape-first program generator (1-4 derived heads + query, self recursion, 2-cycles, negation, comparisons, integer arithmetic, wildcards, constants, string column) x EDBs over a 3-5 value domain, plus a hand-written corpus x limits {1,2,3,5,|A|,|A|+1}; non-trivial = |A| >= 2',
+    rule='shape-first program generator (1-4 derived heads + query, self recursion, 2-cycles, negation, comparisons, integer arithmetic, wildcards, constants, string column) x EDBs over a 3-5 value domain, plus a hand-written corpus and targeted families: shared-subplan, bound-recursive query (`__query__` head, Magic Sets shape), negated relation defined later in the text, recursive answer relation, multi-key joins with permuted key order, union of projections, two-clause query heads, shuffled rule order x limits {1,2,3,5,|A|,|A|+1}; non-trivial = |A| >= 2',
     trusted_base=['IQLEngine public API (with_config, add_tuples, set_max_result_rows, execute_tuples)', 'Handler::query_program / validate_rules_stratification for C34'],
     assumptions=['values in generated programs are Int64 and strings; comparisons other than =/!= only between integers'],
 )
